@@ -10,8 +10,17 @@ number of rows.
 
 Sub-checks: history (everything interleaved), panel (identifiers in any order, flat frame,
 individual map), folds (split for many k / group columns), extract (every kind of iterable,
-count, row bootstrap) - all four share judge_history - and flatten (the flattening tool and
-count_number_of_groups called directly, pure pandas, in-process).
+count, row bootstrap), reeval (repeated evaluations) - all five share judge_history - and flatten
+(the flattening tool and count_number_of_groups called directly, pure pandas, in-process).
+
+Repeated evaluations: the generator remembers every formula a step hands to the library (evaluated by
+values_from_database, stored by add_column / define_variable, condition of remove).  A later evaluation
+step takes, in half of the cases (70% in 'reeval'), one of them again instead of a new formula: the same
+spec, rebuilt, or (op ends with 'same') the very Expression object of the earlier call - preferably one
+whose columns were scaled or whose rows changed since - and scale_column prefers columns that such a
+formula reads.  The oracle needs nothing new: every evaluation is compared with the reference value of
+the formula on the model table as it is at that step.  Classes 'reeval:*' / 'reeval_after:<operation>'
+report which operations lay between two evaluations of one formula.
 
 Magnitudes: besides the moderate values that the typed formulas of gen.TreeGen are built for, a table
 holds up to two columns of another scale - integers and dyadic fractions around 1e5 .. 1e12 whose
@@ -33,6 +42,7 @@ repeated row labels it also deletes rows on which the condition is zero).  The s
 from __future__ import annotations
 
 import functools
+import json
 import math
 
 import numpy as np
@@ -49,6 +59,9 @@ ASSUMPTIONS = [
     'the value the engine stored is accepted within the C01 tolerance and then adopted by the model, so '
     'that later steps read exactly what the table holds',
     'formulas carry no shared sub-trees (the ConditionalSum finding of C01 is not re-tested here)',
+    'evaluating a formula does not depend on what was evaluated before: the same formula (rebuilt from its spec, or '
+    'the same Expression object handed over again) must be worth, at every later step, its reference value on the '
+    'table as it is then; an Expression object is not specific to the state of the table it was used on first',
     'row labels may repeat (stacked waves, a Database built from a bootstrap sample or from extract_rows '
     'with repeated positions) or be any unique integers: rows are identified by position in Database.data and, '
     'inside folds, by the multiset of (label, values) pairs - of values alone where a fold carries labels the '
@@ -76,6 +89,7 @@ CONST_NAMES = ['Age', 'Zone']
 NEW_NAMES = ['NewVariable', 'derived', 'z_new', 'lnx', 'flag', 'seg', 'dd', 'ee', 'ff', 'gg', 'hh2', 'kk',
              'mm', 'nn2', 'pp', 'qq', 'rr', 'ss', 'tt2', 'uu', 'vv', 'ww', 'xx', 'yy', 'zz9']
 MODIFYING = {'remove', 'add_column', 'define_variable', 'scale', 'panel'}
+CHANGING = MODIFYING | {'resample', 'reextract'}  # operations after which the table is another one
 # magnitudes at which neighbouring integers are within a relative 1e-5 of each other (exact in a double)
 BIG_BASES = [120000, 250000, 26010431, 10 ** 9, 2 ** 31, 10 ** 12]
 TINY_UNITS = [1e-9, 1e-12, 2.0 ** -40, 1e-7]
@@ -304,6 +318,16 @@ def _observe(spec):
     b = build.Builder([], overloads=bool(spec.get('overloads')))
     steps = [dict(snap=_snapshot(d))]
     box = {}
+    built = {}  # formula (as JSON text) -> the Expression object built for it last
+
+    def expr(formula, how=None):
+        # 'same': the object that was handed to the library for this formula earlier in the history
+        # (whatever the entry point); otherwise the formula is built again from its spec
+        key = json.dumps(formula)
+        if how != 'same' or key not in built:
+            built[key] = b.build(formula)
+        return built[key]
+
     for i, op in enumerate(spec['ops']):
         kind = op[0]
         n = len(d.data)
@@ -311,19 +335,19 @@ def _observe(spec):
         np.random.seed((spec['np_seed'] + i) % (2 ** 32))
         # --- harness side: arguments
         if kind == 'remove':
-            e = b.build(op[1])
+            e = expr(op[1])
             call = lambda: d.remove(e)  # noqa: E731
             enc = lambda r: None  # noqa: E731
         elif kind == 'add_column':
-            e = b.build(op[2])
+            e = expr(op[2], op[3] if len(op) > 3 else None)
             call = lambda: d.add_column(e, op[1])  # noqa: E731
             enc = lambda r: [float(x) for x in r]  # noqa: E731
         elif kind == 'define_variable':
-            e = b.build(op[2])
+            e = expr(op[2], op[3] if len(op) > 3 else None)
             call = lambda: d.define_variable(op[1], e)  # noqa: E731
             enc = lambda r: [type(r).__name__, getattr(r, 'name', None)]  # noqa: E731
         elif kind == 'values':
-            e = b.build(op[1])
+            e = expr(op[1], op[2] if len(op) > 2 else None)
             call = lambda: d.values_from_database(e)  # noqa: E731
             enc = lambda r: [float(x) for x in r]  # noqa: E731
         elif kind == 'scale':
@@ -447,9 +471,9 @@ def _describe(op):
     if kind == 'remove':
         return f'remove({refsem.render(op[1])[:120]})'
     if kind in ('add_column', 'define_variable'):
-        return f'{kind}({op[1]!r} := {refsem.render(op[2])[:120]})'
+        return f'{kind}({op[1]!r} := {refsem.render(op[2])[:120]}{", same object" if len(op) > 3 and op[3] == "same" else ""})'
     if kind == 'values':
-        return f'values_from_database({refsem.render(op[1])[:120]})'
+        return f'values_from_database({refsem.render(op[1])[:120]}{", same object" if len(op) > 2 and op[2] == "same" else ""})'
     if kind == 'scale':
         return f'scale_column({op[1]!r}, {op[2]!r})'
     if kind == 'extract':
@@ -467,7 +491,7 @@ _WARM_SPEC = dict(
     np_seed=1, overloads=False,
     ops=[['remove', ['Gt', ['Var', 'x'], ['Num', 4.5]]], ['add_column', 'n', ['Plus', ['Var', 'x'], ['Num', 1.0]]],
          ['define_variable', 'n2', ['Times', ['Var', 'x'], ['Var', 'k']]], ['values', ['Var', 'x']],
-         ['scale', 'x', 2.0], ['count', 'k', ['pos', 0]], ['extract', 'list', [0, 2]],
+         ['scale', 'x', 2.0], ['values', ['Var', 'x'], 'same'], ['count', 'k', ['pos', 0]], ['extract', 'list', [0, 2]],
          ['extract', 'range', [0, 2, 0]], ['sample', None], ['split', 2, None], ['split', 2, 'ID'],
          ['panel', 'ID'], ['sample_individuals', None], ['flat', None], ['flat', ['a']], ['split', 2, None]])
 _WARM = [False]
@@ -484,7 +508,18 @@ def _warm_up():
             pass
 
 
-def judge_history(spec, follow=('add_column', 'define_variable', 'split')) -> Outcome:
+def _formula_of(op):
+    """(formula, how) handed to the library by an operation, or (None, None)."""
+    if op[0] == 'remove':
+        return op[1], None
+    if op[0] == 'values':
+        return op[1], (op[2] if len(op) > 2 else None)
+    if op[0] in ('add_column', 'define_variable'):
+        return op[2], (op[3] if len(op) > 3 else None)
+    return None, None
+
+
+def judge_history(spec, follow=('add_column', 'define_variable', 'split'), need='removal') -> Outcome:
     out = Outcome()
     _warm_up()
     ops = spec['ops']
@@ -504,6 +539,8 @@ def judge_history(spec, follow=('add_column', 'define_variable', 'split')) -> Ou
     gap_seen_by = set()
     dup_seen_by = set()
     removal_then = False
+    evaluated = {}  # formula (JSON text) -> index of the step that evaluated it last
+    reeval_then = False
     history = []
     for i, op in enumerate(ops):
         kind = op[0]
@@ -520,6 +557,25 @@ def judge_history(spec, follow=('add_column', 'define_variable', 'split')) -> Ou
             gap_seen_by.add(kind)
         if m.removed and kind in follow:
             removal_then = True
+        formula, how = _formula_of(op)
+        if formula is not None and not (kind in ('add_column', 'define_variable') and op[1] in m.cols):
+            fkey = json.dumps(formula)
+            if fkey in evaluated and kind != 'remove':
+                # the same formula is evaluated again: what happened to the table in between?
+                between = sorted({o[0] for o in ops[evaluated[fkey] + 1:i]} & CHANGING)
+                name = 'values_from_database' if kind == 'values' else kind
+                out.classes.append(f'reeval:{name}')
+                out.classes.append('reeval:same_object' if how == 'same' else 'reeval:rebuilt')
+                read = {n[1] for n in refsem.walk(formula) if n[0] == 'Var'}
+                for o in ops[evaluated[fkey] + 1:i]:
+                    if o[0] == 'scale' and o[1] in read:
+                        between.append('scale_of_a_column_it_reads')
+                        break
+                for k in between or ['nothing']:
+                    out.classes.append(f'reeval_after:{k}')
+                if between and kind in follow:
+                    reeval_then = True
+            evaluated[fkey] = i
         if rec['exc'] is not None and isolate.harness_fault(dict(tb=rec['exc'][3])):
             raise RuntimeError(f'harness fault inside the child: {rec["exc"][:3]}\n{rec["exc"][3]}')
 
@@ -550,7 +606,7 @@ def judge_history(spec, follow=('add_column', 'define_variable', 'split')) -> Ou
             seen.add(f.key)
             unique.append(f)
     out.failures = unique
-    out.nontrivial = len(ops) >= 3 and removal_then
+    out.nontrivial = len(ops) >= 3 and (reeval_then if need == 'reeval' else removal_then)
     for k in sorted(gap_seen_by):
         out.classes.append(f'after_gap:{k}')
     for k in sorted(dup_seen_by):
@@ -1065,7 +1121,7 @@ def _judge_split(out, m: Model, k, by, folds, ctx, where):
 
 WEIGHTS = {
     #              remove add def val scale count extract sample split panel s_ind flat
-    'history': dict(remove=5, add_column=4, define_variable=2, values=1, scale=2, count=2, extract=2,
+    'history': dict(remove=5, add_column=4, define_variable=2, values=3, scale=2, count=2, extract=2,
                     sample=2, split=4, panel=1, sample_individuals=1, flat=1, resample=2, reextract=1),
     'panel': dict(remove=4, add_column=2, define_variable=0, values=0, scale=1, count=1, extract=0,
                   sample=0, split=2, panel=4, sample_individuals=4, flat=5, resample=0, reextract=0),
@@ -1073,7 +1129,10 @@ WEIGHTS = {
                   sample=1, split=8, panel=1, sample_individuals=0, flat=0, resample=3, reextract=1),
     'extract': dict(remove=4, add_column=1, define_variable=1, values=0, scale=1, count=3, extract=7,
                     sample=3, split=0, panel=1, sample_individuals=0, flat=0, resample=2, reextract=2),
+    'reeval': dict(remove=3, add_column=3, define_variable=2, values=8, scale=5, count=1, extract=0,
+                   sample=0, split=1, panel=1, sample_individuals=0, flat=0, resample=1, reextract=1),
 }
+REPEAT = dict(history=0.5, panel=0.5, folds=0.5, extract=0.5, reeval=0.7)  # share of evaluations that repeat
 
 
 _LABEL_KINDS = {
@@ -1081,6 +1140,7 @@ _LABEL_KINDS = {
     'panel': ['default'] * 7 + ['stacked'] * 2 + ['shuffled'],
     'folds': ['default'] * 4 + ['stacked'] * 4 + ['offset', 'shuffled'],
     'extract': ['default'] * 5 + ['stacked'] * 3 + ['offset', 'shuffled'],
+    'reeval': ['default'] * 5 + ['stacked'] * 3 + ['offset', 'shuffled'],
 }
 _SLOTS = st.sampled_from(list(range(100)))  # (close to) uniform, unlike bounded integers/floats
 _STOP = st.sampled_from([0] + [1] * 11)
@@ -1097,7 +1157,7 @@ def _table(draw, focus, big):
     integer, so that the minimisation of a failing history does not crawl through every cell."""
     import random
 
-    max_rows = dict(history=10, panel=12, folds=16, extract=10)[focus] * (2 if big else 1)
+    max_rows = dict(history=10, panel=12, folds=16, extract=10, reeval=10)[focus] * (2 if big else 1)
     n = draw(st.integers(3, max_rows))
     counts = dict(real=draw(st.integers(1, 2)), pos=1, int=draw(st.integers(1, 2)), bool=draw(st.integers(1, 2)),
                   big=draw(st.sampled_from([0, 1, 1, 2])))
@@ -1341,6 +1401,56 @@ def _condition(draw, m, info, want_some):
     return fallback
 
 
+def _reads(formula):
+    """Names of the columns a formula reads."""
+    return sorted({n[1] for n in refsem.walk(formula) if n[0] == 'Var'})
+
+
+def _note(state, formula, sort):
+    """Remember that `formula` is handed to the library by the operation that is about to be appended
+    (index len(ops)), so that later steps can evaluate the very same formula again."""
+    if formula[0] in ('Lit', 'Num'):
+        return
+    key = json.dumps(formula)
+    for s in state['seen']:
+        if s['key'] == key:
+            s['last'] = len(state['ops'])
+            return
+    state['seen'].append(dict(key=key, f=formula, sort=sort, reads=_reads(formula), last=len(state['ops'])))
+
+
+def _repeat(draw, state, sorts):
+    """An earlier formula of the history (of one of the sorts) to be evaluated again on the table as it
+    is now, with its values, or (None, None, None).  Formulas whose columns were changed in place, or whose
+    rows changed, since they were evaluated last are preferred: that is where a repetition can differ."""
+    m = state['m']
+    menu = []
+    for k, s in enumerate(state['seen']):
+        if s['sort'] not in sorts:
+            continue
+        w = 1
+        if state['rows_stamp'] > s['last']:
+            w = 2
+        if any(state['col_stamp'].get(c, -1) > s['last'] for c in s['reads']):
+            w = 4
+        menu += [k] * w
+    if not menu:
+        return None, None, None
+    s = state['seen'][draw(st.sampled_from(menu))]
+    try:
+        vals = [ev.v for ev in ref_values(s['f'], m.rows)]
+    except _Ill:
+        return None, None, None
+    if any(abs(v) > (BIG_CAP if s['sort'] == 'big' else FORMULA_CAP) for v in vals):
+        return None, None, None
+    return s['f'], vals, s['sort']
+
+
+def _how(draw):
+    """Is the Expression object of the earlier evaluation handed over again, or is the formula rebuilt?"""
+    return ['same'] if _p(draw, 0.4) else []
+
+
 @st.composite
 def _step(draw, state):
     """One more operation (appended to state['ops']), or the end of the history.  One step =
@@ -1367,7 +1477,7 @@ def _step(draw, state):
         if kind == 'panel' and focus == 'panel' and m.panel is None:
             w = w + 2 * step  # get there
         menu += [kind] * w
-    if step == 0 and focus != 'panel' and draw(_SLOTS) >= 40:
+    if step == 0 and focus not in ('panel', 'reeval') and draw(_SLOTS) >= 40:
         kind = 'remove'
     else:
         kind = draw(st.sampled_from(menu))
@@ -1376,7 +1486,9 @@ def _step(draw, state):
 
     if kind == 'remove':
         cond, flags = _condition(draw, m, info, want_some=_p(draw, 0.8))
+        _note(state, cond, 'cond')
         ops.append(['remove', cond])
+        state['rows_stamp'] = len(ops) - 1
         n_del = sum(flags)
         if n_del and m.panel is not None:
             state['stale'] = True
@@ -1388,18 +1500,37 @@ def _step(draw, state):
             name = draw(st.sampled_from(m.cols))
             ops.append([kind, name, _fallback('real', info)])
             return None
-        sort = draw(st.sampled_from(['real', 'real', 'pos', 'int', 'bool'] + (['big', 'big'] if info['big'] else [])))
-        if sort == 'big':
-            f, vals = _big_formula(draw, m, info)
-            lo = hi = None
-        else:
-            f, vals, lo, hi = _typed_formula(draw, m, info, sort, draw(st.integers(1, 3)))
+        f, how = None, []
+        if state['seen'] and _p(draw, REPEAT[focus] * 0.6):
+            # the formula of an earlier step once more, under a new name, on the table as it is now
+            f, vals, sort = _repeat(draw, state, ('real', 'pos', 'int', 'bool', 'big'))
+            if f is not None:
+                how = _how(draw)
+                lo = hi = None
+                # the typing of the new column follows the values the formula takes now
+                if sort == 'pos' and any(v < 1e-6 for v in vals):
+                    sort = 'real'
+                if sort == 'bool' and any(v not in (0.0, 1.0) for v in vals):
+                    sort = 'real'
+                if sort == 'int':
+                    if all(v == math.floor(v) for v in vals):
+                        lo, hi = int(min(vals)), int(max(vals))
+                    else:
+                        sort = 'real'
+        if f is None:
+            sort = draw(st.sampled_from(['real', 'real', 'pos', 'int', 'bool'] + (['big', 'big'] if info['big'] else [])))
+            if sort == 'big':
+                f, vals = _big_formula(draw, m, info)
+                lo = hi = None
+            else:
+                f, vals, lo, hi = _typed_formula(draw, m, info, sort, draw(st.integers(1, 3)))
         if f is None:
             return None
         name = new_names.pop(draw(st.integers(0, len(new_names) - 1))) if new_names else None
         if name is None:
             return None
-        ops.append([kind, name, f])
+        _note(state, f, sort)
+        ops.append([kind, name, f] + how)
         m.cols = m.cols + [name]
         for r, v in zip(m.rows, vals):
             r[name] = v
@@ -1408,22 +1539,44 @@ def _step(draw, state):
         else:
             info[sort].append(name)
     elif kind == 'values':
-        f, vals, _, _ = _typed_formula(draw, m, info, 'real', draw(st.integers(1, 3)))
+        f, how = None, []
+        if state['seen'] and _p(draw, REPEAT[focus]):
+            # an earlier formula of the history (evaluated, stored as a column or used as a condition) again
+            f, vals, sort = _repeat(draw, state, ('real', 'pos', 'int', 'bool', 'big', 'cond'))
+            if f is not None:
+                how = _how(draw)
+        if f is None:
+            sort = draw(st.sampled_from(['real', 'real', 'real', 'pos', 'int', 'bool']
+                                        + (['big'] if info['big'] else [])))
+            if sort == 'big':
+                f, vals = _big_formula(draw, m, info)
+            else:
+                f, vals, _, _ = _typed_formula(draw, m, info, sort, draw(st.integers(1, 3)))
         if f is not None:
-            ops.append(['values', f])
+            _note(state, f, sort)
+            ops.append(['values', f] + how)
     elif kind == 'scale':
         ids = set(info['id']) | {m.panel}
         which = draw(st.sampled_from(['real', 'real', 'pos', 'int'] + (['big', 'big'] if info['big'] else [])))
+        # half of the time a column that a formula of an earlier step reads (if there is one that may be scaled)
+        pool_of = {c: 'real' for c in info['real']}
+        pool_of.update({c: 'pos' for c in info['pos']})
+        pool_of.update({c[0]: 'int' for c in info['int']})
+        pool_of.update({c: 'big' for c in info['big']})
+        read = sorted({c for s_ in state['seen'] for c in s_['reads'] if c in pool_of and c not in ids})
+        target = draw(st.sampled_from(read)) if (read and _p(draw, 0.5)) else None
+        if target is not None:
+            which = pool_of[target]
         cap = 1e6
         if which == 'big':
             # unit conversions of large / tiny entries: the neighbours stay different numbers
-            col = draw(st.sampled_from(info['big']))
+            col = target or draw(st.sampled_from(info['big']))
             if col in ids:
                 return None
             s = draw(st.sampled_from([1e-9, 1e-6, 0.001, 10, 2, -1, 0.5, 1000, 1, 1000.0, 0.1, 3]))
             cap = BIG_CAP
         elif which == 'int':
-            cands = [c for c in info['int'] if c[0] not in ids]
+            cands = [c for c in info['int'] if c[0] not in ids and target in (None, c[0])]
             if not cands:
                 return None
             entry = draw(st.sampled_from(cands))
@@ -1434,10 +1587,10 @@ def _step(draw, state):
             entry[1], entry[2] = a, b_
             col = entry[0]
         elif which == 'pos':
-            col = draw(st.sampled_from(info['pos']))
+            col = target or draw(st.sampled_from(info['pos']))
             s = draw(st.sampled_from([0.5, 2, 2.0, 100, 0.01, 1, 0.1, 3]))
         else:
-            col = draw(st.sampled_from(info['real']))
+            col = target or draw(st.sampled_from(info['real']))
             if col == m.panel:
                 return None
             s = draw(st.sampled_from([0.5, 2, -1, 100, 0.01, 1, 0, -2.5, 0.1, 1000.0, 1e-9, 1e-6, 1e-12]))
@@ -1445,6 +1598,7 @@ def _step(draw, state):
         if peak > cap or (which == 'pos' and min(r[col] for r in m.rows) * s < 1e-6):
             return None
         ops.append(['scale', col, s])
+        state['col_stamp'][col] = len(ops) - 1
         for r in m.rows:
             r[col] = r[col] * float(s)
         if col not in state['touched']:
@@ -1478,6 +1632,7 @@ def _step(draw, state):
         pick = np.random.RandomState((state['np_seed'] + len(ops)) % (2 ** 32)).randint(
             0, m.n, size=m.n if size is None else size)
         ops.append(['resample', size])
+        state['rows_stamp'] = len(ops) - 1
         m.rows = [dict(m.rows[j]) for j in pick]
         m.labels = [m.labels[j] for j in pick]
         m.panel = None
@@ -1485,6 +1640,7 @@ def _step(draw, state):
     elif kind == 'reextract':
         ints = draw(st.lists(st.integers(0, 10 ** 6), min_size=2, max_size=m.n + 2))
         ops.append(['reextract', ints])
+        state['rows_stamp'] = len(ops) - 1
         pos = [p % m.n for p in ints]
         m.rows = [dict(m.rows[j]) for j in pos]
         m.labels = [m.labels[j] for j in pos]
@@ -1511,6 +1667,7 @@ def _step(draw, state):
         if not m.contiguous(col):
             state['over'] = True
             return None
+        state['rows_stamp'] = len(ops) - 1
         order = sorted(range(m.n), key=lambda p: m.rows[p][col])
         m.rows = [m.rows[p] for p in order]
         m.labels = list(range(m.n))
@@ -1539,7 +1696,7 @@ def histories(draw, tier, focus):
     np_seed = draw(st.integers(0, 2 ** 31 - 1))
     overloads = draw(st.booleans())
     state = dict(m=Model(table), info=info, focus=focus, ops=[], names=list(NEW_NAMES), over=False, steps=0, stale=False,
-                 np_seed=np_seed, touched=[])
+                 np_seed=np_seed, touched=[], seen=[], rows_stamp=-1, col_stamp={})
     limit = 25 if big else 12
     for _ in range(2 * limit):
         if state['over'] or state['m'].n == 0 or len(state['ops']) >= limit:
@@ -1806,6 +1963,19 @@ SUBCHECKS = [
              'scaling) and row bootstrap on a table with gaps; non-trivial: >= 3 operations, a '
              'removal that deleted >= 1 row followed by extract/count/sample/add_column',
              max_skip_fraction=0.1),
+    SubCheck('reeval', _strategy('reeval'),
+             functools.partial(judge_history, follow=('values', 'add_column', 'define_variable'), need='reeval'),
+             render, dict(quick=900, thorough=25000),
+             'histories that REPEAT an evaluation: a formula that an earlier step handed to the library '
+             '(values_from_database, add_column, define_variable, or the condition of a remove) is evaluated '
+             'again - through values_from_database, or stored under a new name by add_column / define_variable; '
+             'rebuilt from its spec or as the very same Expression object - after later operations of every kind '
+             '(scale_column, preferably of a column the formula reads, add_column, define_variable, remove, panel, '
+             'Database rebuilt from a bootstrap sample / from extract_rows, and the read-only ones), and must '
+             'each time be worth what the reference semantics gives on the rows of the model table as they are '
+             'then (C01 tolerance); the other sub-checks repeat earlier formulas in half of their evaluations as '
+             'well; non-trivial: >= 3 operations and a repeated evaluation with >= 1 table-changing operation '
+             'since the previous evaluation of that formula', max_skip_fraction=0.1),
     SubCheck('flatten', strat_flatten, judge_flatten, render_flatten, dict(quick=800, thorough=20000),
              'biogeme.tools.database.flatten_database and count_number_of_groups called directly on frames '
              'whose row index has gaps: numbered and named rows (row_name), automatic and explicit identical '
